@@ -43,6 +43,38 @@ def variants(rng, G, e):
     return out
 
 
+def deep_copy(e):
+    """structurally equal expression built from fresh operator objects (terminals are shared)"""
+    if e._ufl_is_terminal_:
+        return e
+    return e._ufl_expr_reconstruct_(*[deep_copy(o) for o in e.ufl_operands])
+
+
+def shared_object_pairs(rng, G):
+    """A re-uses one sub-expression *object* in two operand positions; B pairs the later-compared occurrence with an
+    equal-but-distinct object and the other occurrence with a different expression (exercises cmp_expr's identity
+    shortcut and its memo of pairs already found equal)"""
+    import ufl
+    out = []
+    wraps = [ufl.exp, ufl.sin, abs, lambda x: x ** 2, lambda x: ufl.conditional(ufl.lt(x, 1), x, 2 * x)]
+    binops = [lambda a, b: a / b, lambda a, b: ufl.atan2(a, b), lambda a, b: ufl.max_value(a, b), lambda a, b: ufl.as_vector([a, b])[G.idxpool[0]],
+              lambda a, b: ufl.conditional(ufl.gt(a, b), a, b)]
+    for _ in range(3):
+        r = G.expr((), (), rng.randint(1, 2))
+        r2 = G.expr((), (), rng.randint(1, 2))
+        if r._ufl_is_terminal_:
+            r = ufl.sin(r)
+        w, bop = rng.choice(wraps), rng.choice(binops)
+        try:
+            A = bop(w(r), r)
+            B = bop(w(r2), deep_copy(r))
+            B2 = bop(w(deep_copy(r)), r2)
+            out += [(A, B), (B, A), (A, B2), (B2, A), (A, deep_copy(A)), (B, B2)]
+        except Exception:
+            pass
+    return out
+
+
 def rank_pairs(G):
     """terminals of different rank indexed down to scalars: multi-indices of different length meet in cmp_expr"""
     import ufl
@@ -91,6 +123,7 @@ class C29(Prop):
                 pairs.append((a, b))
             for t in itertools.permutations(rng.sample(pool, min(5, len(pool))), 3):
                 triples.append(t)
+            pairs += shared_object_pairs(rng, G)
         return pairs, triples
 
     def correspondence(self, ctx, ev):
